@@ -253,14 +253,48 @@ def r09_2(ctx, rr):
     rr.instances += 1
     rr.check(blk is not None, "RearCodedListBuilder::push:block-predicate", "push must start a new block exactly when `self.len % self.k == 0`", pb.span)
     if blk is not None:
-        th = show(F, blk["th"])
-        el = show(F, blk["el"])
+        # the variable holding the length of the common prefix: first component of longest_common_prefix(..)
+        lcp_id = None
+        for n in walk(pb.body):
+            if n.get("k") == "LetStmt" and n.get("init") is not None and cname(F, n["init"]) == "rear_coded_list::longest_common_prefix" and n["pat"].get("k") == "PTuple" and n["pat"]["ps"][0].get("k") == "PBind":
+                lcp_id = n["pat"]["ps"][0]["id"]
+        if lcp_id is None:
+            raise AnchorMissing("push: `let (lcp, order) = longest_common_prefix(..)` not found")
+
+        def is_lcp(x):
+            return x[0] == "var" and str(x[2]).split("#")[0] == str(lcp_id)
+        W = Walker(F, pb)
+        ev = {"ptr_th": 0, "ptr_el": 0, "enc_th": 0, "enc_el": [], "suffix_el": False}
+        in_th = set(id(x) for x in walk(blk["th"]))
+        in_el = set(id(x) for x in walk(blk["el"])) if "el" in blk else set()
+
+        def on_node(Wk, n, K):
+            if n.get("k") == "MethodCall" and n["name"] == "push" and Wk.T.term(n["recv"]) == ("field", slf, "pointers"):
+                arg = Wk.T.term(n["args"][0])
+                good = arg == ("call", "len", (("field", slf, "data"),))
+                if id(n) in in_th and good:
+                    ev["ptr_th"] += 1
+                else:
+                    ev["ptr_el"] += 1
+            if cname(F, n) == "rear_coded_list::encode_int":
+                a = Wk.T.term(n["args"][0])
+                if id(n) in in_el:
+                    ev["enc_el"].append(a)
+                else:
+                    ev["enc_th"] += 1
+            if n.get("k") == "Index" and id(n) in in_el and range_of(F, n["i"]) is not None:
+                lo, hi, incl = range_of(F, n["i"])
+                if lo is not None and hi is None and is_lcp(Wk.T.term(lo)):
+                    ev["suffix_el"] = True
+        W.on_node = on_node
+        W.run()
         rr.instances += 1
-        rr.check("self.pointers.push(self.data.len())" in th and "pointers.push" not in el, "RearCodedListBuilder::push:pointer-per-block", "a pointer to the current end of data must be pushed exactly when a block starts", F.loc(blk))
+        rr.check(ev["ptr_th"] == 1 and ev["ptr_el"] == 0, "RearCodedListBuilder::push:pointer-per-block", "a pointer to the current end of data must be pushed exactly when a block starts", F.loc(blk))
         rr.instances += 1
-        rr.check("encode_int((self.last_str.len() - lcp), &mut self.data)" in el.replace("rear_length", "(self.last_str.len() - lcp)") and "encode_int(" not in th.replace("encode_int_len", ""), "RearCodedListBuilder::push:rear-length", "inside a block the rear length `last_str.len() - lcp` must be encoded before the suffix; the first string of a block is stored verbatim", F.loc(blk))
+        want = [x for x in ev["enc_el"] if x[0] == "op" and x[1] == "-" and x[2] == ("call", "len", (("field", slf, "last_str"),)) and is_lcp(x[3])]
+        rr.check(len(ev["enc_el"]) == 1 and len(want) == 1 and ev["enc_th"] == 0, "RearCodedListBuilder::push:rear-length", "inside a block the rear length `last_str.len() - lcp` must be encoded before the suffix; the first string of a block is stored verbatim", F.loc(blk))
         rr.instances += 1
-        rr.check("string.as_bytes()[ops::RangeFrom { start: lcp }]" in el, "RearCodedListBuilder::push:suffix", "inside a block only the suffix after the common prefix is stored", F.loc(blk))
+        rr.check(ev["suffix_el"], "RearCodedListBuilder::push:suffix", "inside a block only the suffix after the common prefix is stored", F.loc(blk))
     s = show(F, pb.body)
     rr.instances += 1
     rr.check(re.search(r"self\.data\.extend_from_slice\(to_encode\);\s*self\.data\.push\(0\);", s) is not None, "RearCodedListBuilder::push:nul", "every stored (suffix of a) string must be followed by a NUL terminator", pb.span)
